@@ -236,7 +236,8 @@ def verdict (ls : List SLabel) (impl : String) : String :=
 def scripts : List (List Nat × Bool) :=
   [([0x1B], false), ([0x1B], true), ([0x1B, 0x5B, 0x41], false), ([0x1B, 0x18], false), ([0x1B, 0x1B], false),
    ([0x61, 0x1B], true), ([0x1B, 0x5D, 0x78, 0x1B], false), ([0x1B, 0x0A], false), ([0x1B, 0x61], true),
-   ([0x1B, 0x50, 0x71, 0x1B], false), ([], true)]
+   ([0x1B, 0x50, 0x71, 0x1B], false), ([], true),
+   ([0x1B, 0x5B], true), ([0x1B, 0x1B], true), ([0x1B, 0x5D, 0x1B, 0x5C], false), ([0x1B, 0x18], true)]
 
 def lcg (s : Nat) : Nat := (s * 6364136223846793005 + 1442695040888963407) % 18446744073709551616
 
@@ -246,7 +247,7 @@ def thin (stride off : Nat) (l : List α) : List α :=
 
 def schedules (thorough : Bool) (seed : Nat) : List (List SLabel) :=
   let cap := if thorough then 60000 else 20000
-  let perScript := if thorough then 6000 else 260
+  let perScript := if thorough then 6000 else 300
   scripts.flatMap fun (ins, mayClose) =>
     let all := (enumerate genTable 80 {} ins mayClose [] cap []).reverse
     let picked := if all.length ≤ perScript then all else
